@@ -313,14 +313,14 @@ func fixedPrefixPath(pathspec string) string {
 func (c *Container) ServeHTTP(httpWriter http.ResponseWriter, httpRequest *http.Request) {
 	// Skip, if content encoding is disabled
 	if !c.contentEncodingEnabled {
-		c.ServeMux.ServeHTTP(httpWriter, httpRequest)
+		c.currentServeMux().ServeHTTP(httpWriter, httpRequest)
 		return
 	}
 	// content encoding is enabled
 
 	// Skip, if httpWriter is already an CompressingResponseWriter
 	if _, ok := httpWriter.(*CompressingResponseWriter); ok {
-		c.ServeMux.ServeHTTP(httpWriter, httpRequest)
+		c.currentServeMux().ServeHTTP(httpWriter, httpRequest)
 		return
 	}
 
@@ -343,7 +343,14 @@ func (c *Container) ServeHTTP(httpWriter http.ResponseWriter, httpRequest *http.
 		}
 	}
 
-	c.ServeMux.ServeHTTP(writer, httpRequest)
+	c.currentServeMux().ServeHTTP(writer, httpRequest)
+}
+
+// currentServeMux returns the ServeMux in use ; Remove replaces it while holding the webServicesLock.
+func (c *Container) currentServeMux() *http.ServeMux {
+	c.webServicesLock.RLock()
+	defer c.webServicesLock.RUnlock()
+	return c.ServeMux
 }
 
 // Handle registers the handler for the given pattern. If a handler already exists for pattern, Handle panics.
